@@ -27,7 +27,7 @@ struct Agg {
 }
 
 impl Agg {
-    fn merge_case(&mut self, case: u64, v: &Value) {
+    fn merge_case(&mut self, case: u64, v: &Value, flavour: &str) {
         self.cases_done += 1;
         if let Some(st) = v.get("st").and_then(|s| s.as_object()) {
             for (k, n) in st {
@@ -51,7 +51,14 @@ impl Agg {
         }
         if let Some(vs) = v.get("v").and_then(|s| s.as_array()) {
             for x in vs {
-                if let Some(vi) = Violation::from_json(x) {
+                if let Some(mut vi) = Violation::from_json(x) {
+                    if flavour != "strict" {
+                        // only the build flavour that showed it is asked to show it again
+                        if let Some(o) = vi.replay.as_object_mut() {
+                            o.insert("flavour".into(), json!(flavour));
+                        }
+                        vi.what = format!("[{flavour} build] {}", vi.what);
+                    }
                     self.violations.push((case, vi));
                 }
             }
@@ -73,6 +80,8 @@ struct Live {
     last_progress_ms: u64,
     /// CPU time (clock ticks) the worker had consumed when it last reported progress
     cpu_at_progress: u64,
+    /// CPU seconds without progress after which this worker counts as hung
+    limit_s: u64,
     killed_by_watchdog: bool,
 }
 
@@ -129,10 +138,10 @@ fn run_one_worker(
             pid,
             last_progress_ms: t0.elapsed().as_millis() as u64,
             cpu_at_progress: 0,
+            limit_s: watchdog_s,
             killed_by_watchdog: false,
         },
     );
-    let _ = watchdog_s;
     let stdout = child.stdout.take().unwrap();
     let reader = BufReader::new(stdout);
     let mut current: Option<u64> = None;
@@ -250,7 +259,10 @@ pub fn replay_in_subprocess(id: &str, path: &std::path::Path, watchdog_s: u64) -
         id.to_string(),
         path.to_string_lossy().to_string(),
     ];
-    let out = run_one_worker(None, &args, watchdog_s, &registry, 0, t0, |_c, v| {
+    let exe = flavour_exe_of(path);
+    let asan = exe.is_some() && std::env::var("CAOSIM_ASAN_EXE").ok().map(PathBuf::from) == exe;
+    let watchdog_s = if asan { watchdog_s * 12 } else { watchdog_s };
+    let out = run_one_worker(exe.as_deref(), &args, watchdog_s, &registry, 0, t0, |_c, v| {
         if let Some(vs) = v.get("v").and_then(|s| s.as_array()) {
             for x in vs {
                 if let Some(s) = x.get("sig") {
@@ -265,6 +277,17 @@ pub fn replay_in_subprocess(id: &str, path: &std::path::Path, watchdog_s: u64) -
         sigs.push(crash_sig(&out.how, &out.last_progress));
     }
     sigs
+}
+
+/// the executable of the build flavour a replay file asks for (None: this executable)
+pub fn flavour_exe_of(path: &std::path::Path) -> Option<PathBuf> {
+    let rp: Value = serde_json::from_str(&std::fs::read_to_string(path).ok()?).ok()?;
+    let var = match rp.get("flavour").and_then(|f| f.as_str()) {
+        Some("asan") => "CAOSIM_ASAN_EXE",
+        Some("fast") => "CAOSIM_FAST_EXE",
+        _ => return None,
+    };
+    std::env::var(var).ok().map(PathBuf::from).filter(|p| p.exists())
 }
 
 pub fn crash_sig(how: &str, progress: &str) -> Value {
@@ -289,8 +312,9 @@ fn spawn_watchdog(
                 // not by wall-clock time, so a busy machine cannot turn a slow case into a "hang";
                 // wall-clock time (40x) is only the backstop for a worker that sleeps forever.
                 let burnt = cpu_ticks(l.pid).saturating_sub(l.cpu_at_progress);
-                let stalled_wall = now.saturating_sub(l.last_progress_ms) > watchdog_s * 1000 * 40;
-                if !l.killed_by_watchdog && (burnt > watchdog_s * 100 || stalled_wall) {
+                let limit = l.limit_s.max(1);
+                let stalled_wall = now.saturating_sub(l.last_progress_ms) > limit * 1000 * 40;
+                if !l.killed_by_watchdog && (burnt > limit * 100 || stalled_wall) {
                     l.killed_by_watchdog = true;
                     unsafe {
                         libc::kill(l.pid as i32, libc::SIGKILL);
@@ -330,9 +354,15 @@ pub fn run_check(check: &'static dyn Check, tier: Tier, seed: u64, jobs: usize) 
     } else {
         None
     };
+    let asan_exe: Option<PathBuf> = if check.asan_flavour_share() && tier == Tier::Thorough {
+        std::env::var("CAOSIM_ASAN_EXE").ok().map(PathBuf::from).filter(|p| p.exists())
+    } else {
+        None
+    };
     let mut handles = vec![];
     for j in 0..jobs {
         let fast_exe = fast_exe.clone();
+        let asan_exe = asan_exe.clone();
         let next = next.clone();
         let agg = agg.clone();
         let registry = registry.clone();
@@ -352,12 +382,20 @@ pub fn run_check(check: &'static dyn Check, tier: Tier, seed: u64, jobs: usize) 
                     from.to_string(),
                     to.to_string(),
                 ];
-                let fast = fast_exe.as_ref().filter(|_| b % 2 == 1);
-                if fast.is_some() {
-                    *agg.lock().unwrap().stats.entry("batches_in_release_like_build".into()).or_insert(0) += 1;
+                let (flavour, exe) = match (&asan_exe, &fast_exe) {
+                    (Some(a), _) if b % 8 == 3 => ("asan", Some(a)),
+                    (_, Some(f)) if b % 2 == 1 => ("fast", Some(f)),
+                    _ => ("strict", None),
+                };
+                match flavour {
+                    "fast" => *agg.lock().unwrap().stats.entry("batches_in_release_like_build".into()).or_insert(0) += 1,
+                    "asan" => *agg.lock().unwrap().stats.entry("batches_in_address_sanitizer_build".into()).or_insert(0) += 1,
+                    _ => {}
                 }
-                let out = run_one_worker(fast.map(|p| p.as_path()), &args, watchdog_s, &registry, j as u64, t0, |c, v| {
-                    agg.lock().unwrap().merge_case(c, v)
+                // the sanitizer costs about ten times the CPU
+                let wd_s = if flavour == "asan" { watchdog_s * 12 } else { watchdog_s };
+                let out = run_one_worker(exe.map(|p| p.as_path()), &args, wd_s, &registry, j as u64, t0, |c, v| {
+                    agg.lock().unwrap().merge_case(c, v, flavour)
                 });
                 if let Some(e) = out.harness_error {
                     agg.lock().unwrap().harness_errors.push(e);
@@ -380,11 +418,12 @@ pub fn run_check(check: &'static dyn Check, tier: Tier, seed: u64, jobs: usize) 
                         let v = Violation {
                             sig,
                             what: format!(
-                                "worker process died ({}) in case {c} at '{}'",
+                                "{}worker process died ({}) in case {c} at '{}'",
+                                if flavour == "strict" { String::new() } else { format!("[{flavour} build] ") },
                                 out.how, out.last_progress
                             ),
                             replay: json!({"mode":"case","property":id,"seed":seed,"case":c,"tier":tier.name(),
-                                "died": out.how, "at": out.last_progress}),
+                                "died": out.how, "at": out.last_progress, "flavour": flavour}),
                         };
                         let mut a = agg.lock().unwrap();
                         a.violations.push((c, v));
@@ -467,7 +506,8 @@ pub fn run_check(check: &'static dyn Check, tier: Tier, seed: u64, jobs: usize) 
             let tm = Instant::now();
             let wd2 = spawn_watchdog(registry.clone(), stop2.clone(), 300, tm);
             let args = vec!["minimise-worker".to_string(), id.to_string(), path.to_string_lossy().to_string()];
-            let out = run_one_worker(None, &args, 300, &registry, 0, tm, |_c, _v| {});
+            let mexe = flavour_exe_of(&path);
+            let out = run_one_worker(mexe.as_deref(), &args, 300, &registry, 0, tm, |_c, _v| {});
             stop2.store(true, Ordering::Relaxed);
             let _ = wd2.join();
             if let Some(mut m) = out.minimised {
